@@ -384,6 +384,7 @@ def k1_names(ctx):
     for n in range(1, maxlen + 1):
         for t in itertools.product(alpha, repeat=n):
             names.append(''.join(t))
+    names += ['r#loop', 'r#Type', 'r#HTTPServer', 'r#', 'r#_x', 'rr#a', 'r#r#loop']      # raw-identifier spellings
     names += smgen.STATE_POOL + smgen.SUPER_POOL + smgen.EVENT_POOL + smgen.NAME_POOL + corpus.NON_SNAKE + \
         ['HTTPRequest', 'XMLParser', 'IOError', 'parseXML', 'sendHTTPRequest', 'ABCDef', 'SCREAMING_SNAKE', 'enable_2fa', 'x_y_z1']
     names = sorted(set(names))
